@@ -21,6 +21,7 @@ import BV.Lemmas.HuffmanRead
 import BV.Lemmas.HuffmanStoreRead
 import BV.Lemmas.HuffmanStoreTree
 import BV.Lemmas.HuffmanOptRle
+import BV.Lemmas.HuffmanEntryPoints
 
 namespace BV.Props.C17
 open BV.Gen BV.Bits BV.Huffman
@@ -570,10 +571,8 @@ in use (`num_codes = 2`, trailing zero code-length code lengths dropped), and a
 single one (`num_codes = 1`, all 18 lengths stored, its length zeroed before
 writing the symbols).
 The simple forms (NSYM 1..4 of `StoreSimpleHuffmanTree` and of the fast
-builder) and the fast builder's static-code form are covered by
-`store_tree_roundtrip_instances`, `static_code_length_code_stored` and
-`store_tree_roundtrip_partial` (not by a general theorem), and by the
-harness's independent reader on every generated case. -/
+builder) and the fast builder's static-code form are covered, in general, by
+`build_and_store_roundtrip` and `fast_build_and_store_roundtrip` below. -/
 theorem store_tree_roundtrip (depths : List Nat) (num : Nat) (tree : List Node)
     (hnum : num ≤ depths.length) (h704 : num ≤ 704) (hd : ∀ x ∈ depths.take num, x ≤ 15)
     (hk : kraftSum 15 (depths.take num) = 32768) (htl : 37 ≤ tree.length) :
@@ -587,6 +586,113 @@ example : (6 ≤ [2, 4, 4, 3, 0, 1, 9].length) ∧ (∀ x ∈ [2, 4, 4, 3, 0, 1,
     kraftSum 15 ([2, 4, 4, 3, 0, 1, 9].take 6) = 32768 ∧
     (storeHuffmanTree [2, 4, 4, 3, 0, 1, 9] 6 (List.replicate 37 default) []).bind
       (fun w => .ok (w.length, readPrefixCode 6 w)) = .ok (29, some ([2, 4, 4, 3, 0, 1], [])) := by
+  decide +kernel
+
+
+/-! ## 7b. every form of prefix code description, at the two entry points, in a bit stream -/
+
+/-- `store_tree_roundtrip` in a bit-stream context: `w` already written, `rest` following,
+and a reader whose alphabet size `A` is smaller than the stored vector (`depths[A..num]`
+zero; e.g. the distance code: 140 table entries, 64 symbols read). -/
+theorem store_tree_roundtrip_ctx (depths : List Nat) (num A : Nat) (tree : List Node)
+    (w rest : List Bool) (hnum : num ≤ depths.length) (h704 : num ≤ 704)
+    (hd : ∀ x ∈ depths.take num, x ≤ 15) (hk : kraftSum 15 (depths.take num) = 32768)
+    (htl : 37 ≤ tree.length) (hA : A ≤ num)
+    (hz : ∀ i, A ≤ i → i < num → depths.getD i 0 = 0) :
+    ∃ bits, storeHuffmanTree depths num tree w = .ok (w ++ bits) ∧
+      readPrefixCode A (bits ++ rest) = some (depths.take A, rest) :=
+  Lemmas.HuffmanStoreTree.store_tree_roundtrip_ctx depths num A tree w rest hnum h704 hd hk htl hA hz
+
+/-- `build_and_store_roundtrip` (GENERAL, every input the exact builder accepts).
+`BuildAndStoreHuffmanTree(histogram, len, A, tree, depth, bits, storage)` as the meta-block
+writers call it: zeroed `depth`/`bits` tables of `n ≥ len` entries, alphabet size
+`1 ≤ A ≤ len ≤ 704`, no count at or above `A`, counts summing to at most `2^25`
+(the no-wrap bound of `sentinel_collision_panics`), any bits `w` already written and any
+bits `rest` following.  Whenever the model returns, what it appended (`cb`) is:
+* two or more symbols in use — whichever of the three stored forms is chosen
+  (`StoreSimpleHuffmanTree` NSYM = 2, 3, 4 with its sort of the symbols by depth and
+  the tree-select bit; `BrotliStoreHuffmanTree`): the RFC 7932 §3.4/§3.5 reader applied
+  to `cb ++ rest` returns exactly `depth[..A]` and stops exactly at `rest`;
+* exactly one symbol `s` in use: `cb` is the NSYM = 1 description `0b0001` (4 bits),
+  `s` (`alphabetBits A` bits), and the tables stay all zero (a zero-length code word:
+  the data loop writes nothing for `s`);
+* no symbol in use: the NSYM = 1 description of symbol 0. -/
+theorem build_and_store_roundtrip (histogram : List Nat) (len A n : Nat) (tree : List Node)
+    (w rest : List Bool) (depth' bits' : List Nat) (w' : Writer)
+    (hlen : len ≤ histogram.length) (h704 : len ≤ 704) (hsum : (histogram.take len).sum ≤ 2 ^ 25)
+    (htl : 2 * len + 1 ≤ tree.length) (ht37 : 37 ≤ tree.length) (hn : len ≤ n)
+    (hA1 : 1 ≤ A) (hA : A ≤ len)
+    (hz : ∀ i, A ≤ i → i < len → histogram.getD i 0 = 0)
+    (h : buildAndStoreHuffmanTree histogram len A tree (List.replicate n 0) (List.replicate n 0) w
+      = .ok (depth', bits', w')) :
+    ∃ cb, w' = w ++ cb ∧
+      (2 ≤ ((histogram.take len).filter (· ≠ 0)).length →
+        readPrefixCode A (cb ++ rest) = some (depth'.take A, rest)) ∧
+      (∀ s, s < len → histogram.getD s 0 ≠ 0 →
+        ((histogram.take len).filter (· ≠ 0)).length = 1 →
+          cb = bitsOf 4 1 ++ bitsOf (alphabetBits A) s ∧ depth' = List.replicate n 0 ∧
+          bits' = List.replicate n 0) ∧
+      (((histogram.take len).filter (· ≠ 0)).length = 0 →
+          cb = bitsOf 4 1 ++ bitsOf (alphabetBits A) 0 ∧ depth' = List.replicate n 0 ∧
+          bits' = List.replicate n 0) := by
+  obtain ⟨cb, h1, h2, h3, h4⟩ := Lemmas.HuffmanEntryPoints.build_and_store_roundtrip histogram len A
+    n tree w rest depth' bits' w' hlen h704 hsum htl ht37 hn hA1 hA hz h
+  exact ⟨cb, h1, fun h => (h2 h).1, h3, h4⟩
+
+/-- non-vacuity: the hypotheses hold and the three cases occur (complex form, 8 table
+entries of which 6 are read; NSYM = 3; NSYM = 1), with the model's answers evaluated;
+the stream continues with `[true]` -/
+example : (∀ h ∈ [[5, 1, 1, 3, 0, 7, 0, 0], [5, 0, 1, 9, 0, 0, 0, 0], [0, 0, 4, 0, 0, 0, 0, 0]],
+      8 ≤ h.length ∧ (h.take 8).sum ≤ 2 ^ 25 ∧ (∀ i : Fin 8, 6 ≤ i.val → h.getD i.val 0 = 0) ∧
+      (buildAndStoreHuffmanTree h 8 6 (List.replicate 37 default) (List.replicate 8 0)
+        (List.replicate 8 0) []).bind
+        (fun r => .ok (readPrefixCode 6 (r.2.2 ++ [true]) == some (r.1.take 6, [true]))) = .ok true) ∧
+    (([5, 1, 1, 3, 0, 7, 0, 0].take 8).filter (· ≠ 0)).length = 5 ∧
+    (([5, 0, 1, 9, 0, 0, 0, 0].take 8).filter (· ≠ 0)).length = 3 ∧
+    (([0, 0, 4, 0, 0, 0, 0, 0].take 8).filter (· ≠ 0)).length = 1 := by decide +kernel
+
+/-- `fast_build_and_store_roundtrip` (GENERAL, every input the fast builder accepts).
+`BrotliBuildAndStoreHuffmanTreeFast(histogram, histogram_total, max_bits, depth, bits, storage)`
+as `BrotliStoreMetaBlockFast` calls it: `histogram_total` = the sum of the counts
+(`≤ 2^25`), `max_bits` = the width of the alphabet, at most 704 counts, none at or above
+`A`, zeroed tables of `n ≥ A` entries.  Whenever the model returns, with `count` the
+number of symbols in use:
+* `count ≥ 2` — NSYM = 2, 3, 4 (with the fast builder's own sort), or, for five or more,
+  the static code-length code `0xff55555554` followed by the depths with the precomputed
+  repeat patterns `kZeroRepsBits/Depth`, `kNonZeroRepsBits/Depth`: the RFC reader returns
+  exactly `depth[..A]` and stops exactly at `rest`;
+* `count = 1`, `count = 0`: as in `build_and_store_roundtrip`. -/
+theorem fast_build_and_store_roundtrip (histogram : List Nat) (A n : Nat)
+    (w rest : List Bool) (depth' bits' : List Nat) (w' : Writer)
+    (h704 : histogram.length ≤ 704) (hsum : histogram.sum ≤ 2 ^ 25)
+    (hA1 : 1 ≤ A) (hAn : A ≤ n) (hA : A ≤ 65536)
+    (hz : ∀ i, A ≤ i → histogram.getD i 0 = 0)
+    (h : buildAndStoreHuffmanTreeFast histogram histogram.sum (alphabetBits A)
+      (List.replicate n 0) (List.replicate n 0) w = .ok (depth', bits', w')) :
+    ∃ cb, w' = w ++ cb ∧
+      (2 ≤ (histogram.filter (· ≠ 0)).length →
+        readPrefixCode A (cb ++ rest) = some (depth'.take A, rest)) ∧
+      (∀ s, histogram.getD s 0 ≠ 0 → (histogram.filter (· ≠ 0)).length = 1 →
+          cb = bitsOf 4 1 ++ bitsOf (alphabetBits A) s ∧ depth' = List.replicate n 0 ∧
+          bits' = List.replicate n 0) ∧
+      ((histogram.filter (· ≠ 0)).length = 0 →
+          cb = bitsOf 4 1 ++ bitsOf (alphabetBits A) 0 ∧ depth' = List.replicate n 0 ∧
+          bits' = List.replicate n 0) := by
+  obtain ⟨cb, count, symbols, length, h1, _, hc, _, h2, h3, h4⟩ :=
+    Lemmas.HuffmanEntryPoints.fast_build_and_store_roundtrip histogram A n w rest depth' bits' w'
+      h704 hsum hA1 hAn hA hz h
+  rw [← hc]
+  exact ⟨cb, h1, fun h => (h2 h).1, h3, h4⟩
+
+/-- non-vacuity: static-code form (a run of 9 equal depths, a run of zeros), NSYM = 3,
+NSYM = 1; 18 or 8 table entries, 20 resp. 8 counts -/
+example : (∀ h ∈ [[3, 3, 3, 3, 3, 3, 3, 3, 3, 0, 0, 0, 1, 1, 1, 1, 1, 8, 0, 0],
+        [5, 0, 1, 9, 0, 0, 0, 0], [0, 0, 4, 0, 0, 0, 0, 0]],
+      h.length ≤ 704 ∧ h.sum ≤ 2 ^ 25 ∧ (∀ i : Fin 20, 18 ≤ i.val → h.getD i.val 0 = 0) ∧
+      (buildAndStoreHuffmanTreeFast h h.sum (alphabetBits 18) (List.replicate 18 0)
+        (List.replicate 18 0) []).bind
+        (fun r => .ok (readPrefixCode 18 (r.2.2 ++ [true]) == some (r.1.take 18, [true]))) = .ok true) ∧
+    ([3, 3, 3, 3, 3, 3, 3, 3, 3, 0, 0, 0, 1, 1, 1, 1, 1, 8, 0, 0].filter (· ≠ 0)).length = 15 := by
   decide +kernel
 
 
